@@ -5,10 +5,12 @@ A(b) == [k |-> "alloc", b |-> b, b2 |-> 0]
 F(b) == [k |-> "free", b |-> b, b2 |-> 0]
 R(b, c) == [k |-> "realloc", b |-> b, b2 |-> c]
 X(b) == [k |-> "badfree", b |-> b, b2 |-> 0]
-\* each thread works on its own blocks (an allocator never hands one address to two threads); t3 also commits a misuse
+Z(b) == [k |-> "allocfail", b |-> b, b2 |-> 0]
+\* each thread works on its own blocks (an allocator never hands one address to two threads); t3 also commits a misuse, and one
+\* allocation of t2 is refused by the allocator with a test failure
 Scripts3 == [t \in {"t1", "t2", "t3"} |->
                IF t = "t1" THEN <<A(1), A(2), F(1), R(2, 3)>>
-               ELSE IF t = "t2" THEN <<A(11), F(11), A(12)>>
+               ELSE IF t = "t2" THEN <<A(11), Z(13), F(11), A(12)>>
                ELSE <<A(21), X(99), F(21), A(22)>>]
 Scripts4 == [t \in {"t1", "t2", "t3", "t4"} |->
                IF t = "t1" THEN <<A(1), A(2), F(1), R(2, 3)>>
